@@ -20,11 +20,13 @@ package ignore
 
 // the codes of an @ignore line: the comma list captured by the expression, trimmed, empty items dropped, upper-cased
 //@ macro func ignCodesOf(text string) string = strings.TrimSpace(reGroup(ignoreRegex, text, 1))
+// the list has at least one non-blank item
+//@ macro func listAny(input string) bool = input != "" && (exists k int :: 0 <= k && k < len(strings.Split(input, ",")) && strings.TrimSpace(strings.Split(input, ",")[k]) != "")
 //@ func parseIgnoreAnnotation
 //@   props C07 C15 C10
 //@   fresh
 //@   ensures result != nil ==> reMatches(ignoreRegex, commentText) && len(result.Codes) > 0 && listHas(ignCodesOf(commentText), true, result.Codes[0])
-//@   ensures result == nil ==> !reMatches(ignoreRegex, commentText) || (forall x string :: !listHas(ignCodesOf(commentText), true, x))
+//@   ensures result == nil ==> !reMatches(ignoreRegex, commentText) || !listAny(ignCodesOf(commentText))
 //@   ensures result != nil ==> result.StartPos == startPos && result.EndPos == endPos && (forall x string :: contains(result.Codes, x) <==> listHas(ignCodesOf(commentText), true, x))
 //@   assigns nothing
 //@   loop 1 invariant forall x string :: contains(codes, x) ==> (exists k int :: 0 <= k && k < $i && strings.TrimSpace(parts[k]) != "" && x == strings.ToUpper(strings.TrimSpace(parts[k])))
@@ -58,18 +60,17 @@ package ignore
 //@ axiom ignoreMatcher_built: ignoreMatcher != nil
 
 // an @ignore line with at least one code
-//@ macro func isIgnoreLine(text string) bool = reMatches(ignoreRegex, text) && (exists x string :: listHas(ignCodesOf(text), true, x))
+//@ macro func isIgnoreLine(text string) bool = reMatches(ignoreRegex, text) && listAny(ignCodesOf(text))
 // the scope [lo, hi] the reader gives comment cm of file f: the whole file before the package clause; the comment's own line
 // when it trails code; otherwise from the comment to the end of the declaration / node found after it (or of the comment)
-//@ pure func scopeOK(pass *analysis.Pass, f *ast.File, cm *ast.Comment, lo token.Pos, hi token.Pos) bool = (cm.Pos() < f.Package && lo == cm.Pos() && hi == f.End()) || (cm.Pos() >= f.Package && pass.Fset.File(cm.Pos()) != nil && lo == pass.Fset.File(cm.Pos()).LineStart(pass.Fset.Position(cm.Pos()).Line) && hi == cm.End()) || (cm.Pos() >= f.Package && lo == cm.Pos() && (hi == cm.End() || (exists d int :: 0 <= d && d < len(f.Decls) && f.Decls[d].End() > cm.Pos() && ((cm.Pos() < f.Decls[d].Pos() && hi == f.Decls[d].End()) || (f.Decls[d].Pos() <= cm.Pos() && (exists n ast.Node :: n != nil && inspIn(n, f.Decls[d]) && n.Pos() > cm.Pos() && hi == n.End()))))))
-// marker m was produced from comment cm of file f
-//@ pure func markerFrom(pass *analysis.Pass, f *ast.File, cm *ast.Comment, m util.IgnoreMarker) bool = isIgnoreLine(cm.Text) && (forall x string :: contains(m.Codes, x) <==> listHas(ignCodesOf(cm.Text), true, x)) && scopeOK(pass, f, cm, m.StartPos, m.EndPos)
+//@ macro func trailsCode(pass *analysis.Pass, f *ast.File, cm *ast.Comment) bool = exists d int :: 0 <= d && d < len(f.Decls) && ((f.Decls[d].End() <= cm.Pos() && pass.Fset.Position(f.Decls[d].End()).Line == pass.Fset.Position(cm.Pos()).Line) || (exists n ast.Node :: n != nil && inspIn(n, f.Decls[d]) && n.Pos() < cm.Pos() && pass.Fset.Position(n.End()).Line == pass.Fset.Position(cm.Pos()).Line))
+//@ macro func scopeOK(pass *analysis.Pass, f *ast.File, cm *ast.Comment, lo token.Pos, hi token.Pos) bool = (cm.Pos() < f.Package && lo == cm.Pos() && hi == f.End()) || (cm.Pos() >= f.Package && trailsCode(pass, f, cm) && pass.Fset.File(cm.Pos()) != nil && lo == pass.Fset.File(cm.Pos()).LineStart(pass.Fset.Position(cm.Pos()).Line) && hi == cm.End()) || (cm.Pos() >= f.Package && lo == cm.Pos() && (hi == cm.End() || (exists d int :: 0 <= d && d < len(f.Decls) && f.Decls[d].End() > cm.Pos() && ((cm.Pos() < f.Decls[d].Pos() && hi == f.Decls[d].End()) || (f.Decls[d].Pos() <= cm.Pos() && (exists n ast.Node :: n != nil && inspIn(n, f.Decls[d]) && n.Pos() > cm.Pos() && hi == n.End()))))))
 
 // C07/C08/C14: the suppression set of a package is well-formed (C16's representation invariant), its global tokens are
-// exactly the configured exclude-checks, and scoped markers are only ever added with a valid start position.
-// (The correspondence "one marker per @ignore line, with the scope of its placement" is carried by the contracts of
-// parseIgnoreAnnotation / findInlineNode / findNextNodeAfterComment and by the code structure; a quantified statement of
-// it over all comments (markerFrom / scopeOK below) did not discharge robustly and is NOT claimed - see DESIGN.md.)
+// exactly the configured exclude-checks, and every scoped marker that is added comes from an @ignore line of a kept file
+// with exactly that line's codes and the scope of its placement (asserted at the one call of IgnoreSet.Add).
+// Not claimed: that every @ignore line of a kept file yields a marker (the skip paths are the two pre-filters, discharged
+// as language inclusions under C15, and parseIgnoreAnnotation == nil, whose contract says "not an @ignore line").
 //@ func ReadIgnoreAnnotations
 //@   props C07 C08 C14 C10
 //@   requires cfg != nil && pass.Fset != nil
@@ -77,6 +78,7 @@ package ignore
 //@   assigns nothing
 //@   ensures result != nil && result.Initialized == (len(cfg.ExcludeChecks) > 0 || len(result.Markers) > 0) && isetInv(result)
 //@   ensures forall t string :: contains(result.moduleIgnores, t) <==> contains(cfg.ExcludeChecks, t)
+//@   at call IgnoreSet.Add#1 assert isIgnoreLine(comment.Text) && (forall x string :: contains(annotation.Codes, x) <==> listHas(ignCodesOf(comment.Text), true, x)) && scopeOK(pass, file, comment, annotation.StartPos, annotation.EndPos)
 //@   loop 1 frame
 //@   loop 2 frame
 //@   loop 3 frame
